@@ -265,7 +265,11 @@ class ReplaceRefMixin(object):
                     o_list_new = []
 
                     for o_el in o:
-                        if o_el in o_map:
+                        if o_el is None:
+                            # an empty slot left by an earlier replacement
+                            # (e.g. in a part that was unfolded before)
+                            o_list_new.append(None)
+                        elif o_el in o_map:
                             o_list_new.append(o_map[o_el])
                         else:
                             warnings.warn(
